@@ -137,13 +137,17 @@ theorem image_len_ge (c : Cfg) (b : Built) (h : c.WF) : c.appOff ≤ (exportImag
   rw [this]
   simp [pre_length c h] <;> omega
 
+def dcdLenOf (c : Cfg) : Nat := match c.dcd with | some d => d.length | none => 0
+def xmcdLenOf (c : Cfg) : Nat := match c.xmcd with | some x => x.length | none => 0
+
 /-- DCD / XMCD extents as the reader derives them from the headers in the image -/
 theorem frontLens_export (c : Cfg) (b : Built) (h : c.WF) (happ : b.app.length = c.appBin.length)
     (hcsf : c.hasCsf = true → (csfBytes c.version b.cmds).length = HabConsts.csfSize)
     (hd : ∀ d, c.dcd = some d → DcdWF d) (hx : ∀ x, c.xmcd = some x → XmcdWF x) (v : View)
     (hv : v.dcd = c.ivt.dcd ∧ v.self = c.start + c.ivtOff) :
     HabRom.frontLens (exportImage c b) v =
-      .ok ((match c.dcd with | some d => d.length | none => 0), (match c.xmcd with | some x => x.length | none => 0)) := by
+      .ok (dcdLenOf c, xmcdLenOf c) := by
+  unfold dcdLenOf xmcdLenOf
   obtain ⟨_, pSelf, _, _, _, pDcd, pDcd0, pXm, _⟩ := ivt_points_lemma c b h happ hcsf
   have hge := appOff_ge c h
   have hlen := image_len_ge c b h
